@@ -13,13 +13,14 @@ TRUSTED = [
     'symbol models tied by correspondence',
 ]
 ASSUMPTIONS = []
-PARTIAL = 'encode_ok_iff_valid is proved for the entry validation and per-segment validation of the model; the capacity clause is tied to Spec by length_agrees; see Props/C08.lean'
+PARTIAL = 'QR: accepted exactly when valid and never panics are theorems; Micro QR / rMQR: entry validation is proved, the accept/reject boundary is exercised against the reference predicate'
 MANIFEST = {
-    'technique': 'Lean 4 case analysis on the encoder model (field validation, per-segment validation, no panic) + differential runs over the full field ranges against a reference validity predicate',
-    'text': ('QRV/Props/C08.lean proves for the models of the three EncodeToBitmap functions that no value of Version, Level, Mask makes them panic, that out-of-range fields '
-             'and unsupported modes are answered with an error, and that segment bit lengths computed by the model agree with the standard\'s; the exact accept/reject boundary against '
-             'the capacity tables is exercised over every (version, level, mode) boundary by differential runs against an independent validity predicate.'),
-    'note': 'Trusted: Lean kernel; models tied by correspondence; python validity predicate from the standard.',
+    'technique': 'Lean 4: encode_ok_iff_valid and no-panic for the QR encoder model (error-or-valid lemma + round-trip theorem), entry validation for Micro QR / rMQR; differential runs over the full field ranges against a reference validity predicate',
+    'text': ('QRV/Props/C08.lean proves for the QR encoder model: it succeeds exactly on the descriptions that are valid by the standard (Spec.Valid: fields in range, supported modes, characters valid '
+             'for the mode incl. well-formed UTF-8 of kanji-representable characters, count representable, total bits within the capacity of Table 9) and never panics for any field values or byte contents. '
+             'For Micro QR and rMQR out-of-range fields are proved to be errors; their exact accept/reject boundary is exercised at every (version, level, mode) capacity and count limit against an '
+             'independent validity predicate, on implementation and model.'),
+    'note': 'Trusted: Lean kernel; symbol models tied by correspondence; python validity predicates (rMQR capacities/count widths from the regenerated tables).',
 }
 
 FIELD_RANGES = {
